@@ -273,6 +273,7 @@ class Intervals:
             for f in q.facts_of_cond(c, q.UNIQ):
                 self._learn(f)
         self._learn_call_facts()
+        self._alias_len_snapshots()
         self._var_cache = {}
 
     def _learn(self, f):
@@ -326,6 +327,33 @@ class Intervals:
                 self.bounds.setdefault(sh, (None, None))
                 cur = self.bounds[sh]
                 self.bounds[sh] = (cur[0], cur[1], "ne0")
+
+    def _alias_len_snapshots(self):
+        """`let n = v.len();` followed by tests on n: the bounds learnt for the snapshot n also
+        hold for len(v) at this point if v was not modified since the snapshot was taken."""
+        body = self.body
+        for key in list(self.bounds):
+            m = _re.match(r"^_(\d+)$", key)
+            if not m:
+                continue
+            l = int(m.group(1))
+            ds = body.defs.get(l, [])
+            if len(ds) != 1 or body.partial_defs.get(l):
+                continue
+            bi, si, kind, node = ds[0]
+            ex = body.expr_of_call(node) if kind == "call" else body.expr_of_rvalue(node["rv"])
+            x = ex
+            while isinstance(x, (Named, Ref, Deref)):
+                x = x.x
+            if isinstance(x, Call) and q.nice(x.callee) in LEN_CALLS and x.args:
+                root = q.root_local(x.args[0])
+                if root is not None and not mutated_between(body, root, bi, self.bb):
+                    tgt = USH(ex)
+                    b = self.bounds[key]
+                    cur = self.bounds.get(tgt, (None, None))
+                    lo = b[0] if cur[0] is None else (max(cur[0], b[0]) if b[0] is not None else cur[0])
+                    hi = b[1] if cur[1] is None else (min(cur[1], b[1]) if b[1] is not None else cur[1])
+                    self.bounds[tgt] = (lo, hi)
 
     def _learn_call_facts(self):
         """Facts implied by library call results on the dominating edges (API contracts)."""
